@@ -1006,9 +1006,38 @@ func closeDischarge(c *Ctx, f *ssa.Function, call *ssa.Call) (bool, string) {
 				if _, isRet := rest[len(rest)-1].(*ssa.Return); isRet {
 					onlyParam := true
 					for _, o := range p.Origins(ch, eng.Plain) {
-						if _, ok := o.(*ssa.Parameter); !ok {
+						switch x := o.(type) {
+						case *ssa.Parameter:
+						case *ssa.Field:
+							// a field of the goroutine's own parameter struct (a pump value with run())
+							if _, isP := x.X.(*ssa.Parameter); !isP {
+								onlyParam = false
+							}
+						default:
 							onlyParam = false
 						}
+					}
+					if !onlyParam {
+						// the goroutine is the run() method of a small pump struct: the channel is a field of that struct, which
+						// was filled from the shared listener's field where the goroutine was started
+						holders := map[string]bool{}
+						for _, mm := range findMultiListeners(&Ctx{P: p, Prop: c.Prop}, "x") {
+							for h := range mm.holders {
+								holders[h] = true
+							}
+						}
+						isHolderLoad := func(x ssa.Value) bool {
+							t, _, _, ok := eng.FieldLoad(x)
+							return ok && holders[t]
+						}
+						leaves := fsOrigins(c, ch, isHolderLoad)
+						all := len(leaves) > 0
+						for _, lf := range leaves {
+							if !isHolderLoad(lf) || lf.(ssa.Instruction).Parent() == f {
+								all = false
+							}
+						}
+						onlyParam = all
 					}
 					if onlyParam && len(f.Blocks) > 0 {
 						// the goroutine is the only closer of its parameter channel if the go site passes a channel that no one else closes
